@@ -259,6 +259,56 @@ SkippedToBack(s, skipped) ==
          THEN Crash(s, "use of a freed deque node (skipped)")
          ELSE SkippedToBack(MoveBackAo(s, Head(skipped)), Tail(skipped))
 
+\* The part of handle_upsert after the residency check of a record whose entry has not been
+\* admitted yet.  The check is one access to the map and its guard is released before the
+\* function goes on: other threads may write or remove the key in between (switch point m.w2
+\* in SyncConc.tla), so everything below reads the state again.  It comes in two halves:
+\* UpsertDecide runs up to the point where the candidate's own map entry is to be removed
+\* (dead already / oversize / lost the contest), UpsertFinish is that removal, one more access
+\* to the map (remove_if: only if the map still holds the very value of this record; switch
+\* point m.w3), and the skipped nodes going to the back.
+\* UpsertDecide returns [kind, s, c, skipped], kind = "done" when nothing is left to do.
+UpsertDecide(sA, c0, r) ==
+    LET i == r.i
+        Done(rc) == [kind |-> "done", s |-> rc[1], c |-> rc[2], skipped |-> <<>>]
+    IN
+    IF "F14" \notin Dev /\ (ExpWoI(sA, sA.info[i]) \/ ExpAoI(sA, sA.info[i]))
+       THEN \* F14 repaired: a candidate that is dead already (expired, or written before an
+            \* invalidate_all) takes no part in a contest and displaces nobody
+            [kind |-> "dead", s |-> EmitMx(sA, [t |-> "upsert.dead", k |-> r.k]), c |-> c0, skipped |-> <<>>]
+       ELSE
+       LET \* F10 repaired: room held by expired or invalidated entries is reclaimed before a
+           \* candidate that does not fit is judged
+           pg == IF "F10" \notin Dev /\ ~FitsC(sA, c0, r.nw) /\ (HasExpiry(sA) \/ sA.va # None)
+                 THEN EvictExpired(sA, c0) ELSE <<sA, c0>>
+           s == pg[1]
+           c == pg[2]
+       IN IF FitsC(s, c, r.nw)
+       THEN Done(HandleAdmit(EmitMx(s, [t |-> "upsert.fit", k |-> r.k]), c, i, r.nw))
+       ELSE IF r.nw > s.cfg.cap
+       THEN [kind |-> "oversize", s |-> EmitMx(s, [t |-> "upsert.oversize", k |-> r.k]), c |-> c, skipped |-> <<>>]
+       ELSE LET a == AdmitWalk(s, r.nw, Freq(s, r.k), 1, <<>>, <<>>, 0, 0, 0)
+            IN IF a.vw >= r.nw /\ Freq(s, r.k) > a.vf
+               THEN LET rv == RemoveVictims(EmitMx(s, [t |-> "upsert.admit", k |-> r.k]), c, a.vics, a.skipped)
+                        ad == HandleAdmit(rv[1], rv[2], i, r.nw)
+                        Wit(st, sk) == IF sk = <<>> THEN st ELSE EmitMx(st, [t |-> "admit.skipped", k |-> -1])
+                    IN IF rv[1].crash # "" THEN Done(<<rv[1], rv[2]>>)
+                       ELSE Done(<<SkippedToBack(Wit(ad[1], rv[3]), rv[3]), ad[2]>>)
+               ELSE [kind |-> "reject", s |-> EmitMx(s, [t |-> "upsert.reject", k |-> r.k]), c |-> c,
+                     skipped |-> a.skipped]
+
+UpsertFinish(s, c, r, d) ==
+    LET Current(st) == st.map[r.k].p /\ st.map[r.k].i = r.i /\ st.map[r.k].n = r.n
+        \* (F5: the removal was by key; the dead-candidate branch came with the repair of F14 and
+        \* has always compared values)
+        s1 == IF Current(s) \/ ("F5" \in Dev /\ d.kind # "dead") THEN MapRemove(s, r.k) ELSE s
+        s2 == IF d.skipped = <<>> THEN s1 ELSE EmitMx(s1, [t |-> "admit.skipped", k |-> -1])
+    IN <<SkippedToBack(s2, d.skipped), c>>
+
+HandleUpsertB(sA, c0, r) ==
+    LET d == UpsertDecide(sA, c0, r)
+    IN IF d.kind = "done" THEN <<d.s, d.c>> ELSE UpsertFinish(d.s, d.c, r, d)
+
 HandleUpsert(s0, c0, r) ==
     LET sA == [s0 EXCEPT !.info[r.i].dirty = FALSE]
         i == r.i
@@ -278,32 +328,7 @@ HandleUpsert(s0, c0, r) ==
        ELSE IF "F5" \notin Dev /\ ~(sA.map[r.k].p /\ sA.map[r.k].i = i)
        THEN \* the entry left the map before it was admitted: nothing to do
             <<sA, c0>>
-       ELSE IF "F14" \notin Dev /\ (ExpWoI(sA, sA.info[i]) \/ ExpAoI(sA, sA.info[i]))
-       THEN \* F14 repaired: a candidate that is dead already (expired, or written before an
-            \* invalidate_all) takes no part in a contest and displaces nobody
-            <<EmitMx(IF Current(sA) THEN MapRemove(sA, r.k) ELSE sA, [t |-> "upsert.dead", k |-> r.k]), c0>>
-       ELSE
-       LET \* F10 repaired: room held by expired or invalidated entries is reclaimed before a
-           \* candidate that does not fit is judged
-           pg == IF "F10" \notin Dev /\ ~FitsC(sA, c0, r.nw) /\ (HasExpiry(sA) \/ sA.va # None)
-                 THEN EvictExpired(sA, c0) ELSE <<sA, c0>>
-           s == pg[1]
-           c == pg[2]
-           RemoveOwn(st) == IF "F5" \in Dev \/ Current(s) THEN MapRemove(st, r.k) ELSE st
-       IN IF FitsC(s, c, r.nw)
-       THEN HandleAdmit(EmitMx(s, [t |-> "upsert.fit", k |-> r.k]), c, i, r.nw)
-       ELSE IF r.nw > s.cfg.cap
-       THEN <<EmitMx(RemoveOwn(s), [t |-> "upsert.oversize", k |-> r.k]), c>>
-       ELSE LET a == AdmitWalk(s, r.nw, Freq(s, r.k), 1, <<>>, <<>>, 0, 0, 0)
-            IN IF a.vw >= r.nw /\ Freq(s, r.k) > a.vf
-               THEN LET rv == RemoveVictims(EmitMx(s, [t |-> "upsert.admit", k |-> r.k]), c, a.vics, a.skipped)
-                        ad == HandleAdmit(rv[1], rv[2], i, r.nw)
-                        Wit(st, sk) == IF sk = <<>> THEN st ELSE EmitMx(st, [t |-> "admit.skipped", k |-> -1])
-                    IN IF rv[1].crash # "" THEN <<rv[1], rv[2]>>
-                       ELSE <<SkippedToBack(Wit(ad[1], rv[3]), rv[3]), ad[2]>>
-               ELSE <<SkippedToBack(IF a.skipped = <<>> THEN EmitMx(RemoveOwn(s), [t |-> "upsert.reject", k |-> r.k])
-                                    ELSE EmitMx(EmitMx(RemoveOwn(s), [t |-> "upsert.reject", k |-> r.k]),
-                                                [t |-> "admit.skipped", k |-> -1]), a.skipped), c>>
+       ELSE HandleUpsertB(sA, c0, r)
 
 ApplyWrite(s, c, r) ==
     IF r.t = "U" THEN HandleUpsert(s, c, r)
